@@ -1091,6 +1091,7 @@ package statefulset
 //@ interface StatefulSetControlInterface.UpdateStatefulSet@StatefulSetController.syncStatefulSet
 //@   sameas defaultStatefulSetControl.UpdateStatefulSet
 //@   requires [C03,C04,C10,C12,C13] handover: len(pods) == len(hPods) && (forall k int :: {pods[k]} 0 <= k && k < len(pods) ==> pods[k] == hPods[k])
+//@   requires [C10] setcopy: set >= hMark    -- the reconcile writes into the set it is given (status on a further copy, selector labels into the claim templates' label maps in place): it must be handed a copy made here, never the object read from the informer cache
 //@ func StatefulSetController.syncStatefulSet@StatefulSetController.sync
 //@   sameas StatefulSetController.syncStatefulSet
 //@   requires [C03,C04,C10,C11,C12,C13] handover: set == gSet && len(pods) == len(hClaimed) && (forall k int :: {pods[k]} 0 <= k && k < len(pods) ==> pods[k] == hClaimed[k])
@@ -1098,7 +1099,8 @@ package statefulset
 //@ func StatefulSetController.syncStatefulSet
 //@   profiles defaulted, crd
 //@   ghost var hPods []*v1.Pod
-//@   at entry: ghost hPods = pods
+//@   ghost var hMark int
+//@   at entry: ghost hPods = pods; ghost hMark = allocMark()
 //@   requires ssc != nil && set != nil && ssc.control != nil
 //@   requires set.Spec.Replicas != nil && deref(set.Spec.Replicas) >= 0 && set.Spec.RevisionHistoryLimit != nil && deref(set.Spec.RevisionHistoryLimit) >= 0 && set.Spec.Selector != nil
 //@   requires slotsbound: deref(set.Spec.Replicas) + card(slotsAnn(ifaceOf(set, "*apps.StatefulSet"))) <= MaxInt32
